@@ -1,5 +1,7 @@
 ----------------------------- MODULE Trace_Modes -----------------------------
 (* Validates recorded calls of the real ECB/CBC/CTR/CTS_* mode objects (C05) against sys/Modes.  Stateless spec. *)
+(* One call on a long message is recorded as segments (whole blocks): ECB segments are independent, a CBC segment is the chain started  *)
+(* from the recorded previous ciphertext block, a CTR segment is the mode with its counter advanced by the block offset (enc_at).          *)
 EXTENDS Modes, Json, IOUtils
 Traces == ndJsonDeserialize(IOEnv.TRACE_FILE)
 VARIABLES vvTid, vvPos, vvBad
@@ -8,6 +10,7 @@ Want(e, r) == IF ~r.ok THEN (IF e.raised = "" THEN <<C("must-refuse", "an except
               ELSE IF e.raised # "" THEN <<C("must-not-raise", r.val)>> ELSE IF e.obs # r.val THEN <<C("value", r.val)>> ELSE <<>>
 Judge(e) ==
   CASE e.op = "enc" -> Want(e, Enc(e.mo, e.m))
+    [] e.op = "enc_at" -> Want(e, Enc([e.mo EXCEPT !.count0 = IncBE(e.mo.count0, e.c)], e.m))   \* CTR: the segment of one long call that starts at block e.c
     [] e.op = "dec" -> Want(e, Dec(e.mo, e.m))
     [] e.op = "rt"  -> LET c == Enc(e.mo, e.m) IN IF c.ok /\ Injective(e.mo) THEN Want(e, Done(e.m)) ELSE <<>>
     [] e.op = "cts_enc" -> IF e.raised # "" THEN <<C("must-not-raise", "ciphertext of the message's length")>>
